@@ -121,42 +121,49 @@ var (
 	c17GluePending = map[string]chan c17GlueRes{}
 )
 
-// c17GluePrefetch starts the subprocess runs of the given cases in the background (they use no state of the harness):
-// they overlap with the in-process cases, which have to run one at a time
-func c17GluePrefetch(lines []string, workers int) {
-	work := make(chan string, len(lines))
+// c17BgStart runs a subprocess case in the background (at most 3 at a time): these cases use no state of the harness
+// and overlap with the in-process cases, which have to run one at a time
+var c17BgSem = make(chan struct{}, 3)
+
+func c17BgStart(line string, run func() c17GlueRes) {
 	c17GlueMu.Lock()
-	for _, l := range lines {
-		if _, dup := c17GluePending[l]; !dup {
-			c17GluePending[l] = make(chan c17GlueRes, 1)
-			work <- l
-		}
+	if _, dup := c17GluePending[line]; dup {
+		c17GlueMu.Unlock()
+		return
 	}
+	ch := make(chan c17GlueRes, 1)
+	c17GluePending[line] = ch
 	c17GlueMu.Unlock()
-	close(work)
-	for w := 0; w < workers; w++ {
-		go func() {
-			for l := range work {
-				r := c17GlueRun(strings.Fields(l))
-				c17GlueMu.Lock()
-				ch := c17GluePending[l]
-				c17GlueMu.Unlock()
-				ch <- r
-			}
-		}()
-	}
+	go func() {
+		c17BgSem <- struct{}{}
+		r := run()
+		<-c17BgSem
+		ch <- r
+	}()
 }
 
-func c17Glue(f []string) (string, []Fail) {
-	line := strings.Join(f, " ")
+// c17BgTake: the result of a case started in the background, if it was
+func c17BgTake(line string) (c17GlueRes, bool) {
 	c17GlueMu.Lock()
 	ch, ok := c17GluePending[line]
 	delete(c17GluePending, line)
 	c17GlueMu.Unlock()
-	var r c17GlueRes
-	if ok {
-		r = <-ch
-	} else {
+	if !ok {
+		return c17GlueRes{}, false
+	}
+	return <-ch, true
+}
+
+func c17GluePrefetch(lines []string) {
+	for _, l := range lines {
+		l := l
+		c17BgStart(l, func() c17GlueRes { return c17GlueRun(strings.Fields(l)) })
+	}
+}
+
+func c17Glue(f []string) (string, []Fail) {
+	r, ok := c17BgTake(strings.Join(f, " "))
+	if !ok {
 		r = c17GlueRun(f)
 	}
 	for _, s := range r.stats {
@@ -221,7 +228,11 @@ func c17GlueRun(f []string) (out c17GlueRes) {
 			where = sub
 		}
 		// (a name with a suffix accepted inside directories; the codec is recognised from the magic number, not the name)
-		name := fmt.Sprintf("f%d.%s", i, in.format)
+		format := in.format
+		if format == "" {
+			format = "fasta" // (empty / dangling: without a known suffix the path would not be an input inside a directory)
+		}
+		name := fmt.Sprintf("f%d.%s", i, format)
 		path := filepath.Join(where, name)
 		tok := in.tok
 		switch in.kind {
@@ -413,7 +424,13 @@ func c17GlueGen(rng *rand.Rand, tier string) []string {
 		d := ""
 		switch kind {
 		case 0:
-			d = fmt.Sprintf("cut=%d", lo+rng.Intn(len(z)-lo))
+			if codec != "gz" && rng.Intn(3) > 0 {
+				// a small bzip2 / xz / zstd file is a single block: only a cut in its last bytes (trailer, checksum) leaves
+				// decoded bytes in front of the error; an earlier cut is met by Ropen itself (first byte)
+				d = fmt.Sprintf("cut=%d", len(z)-1-rng.Intn(6))
+			} else {
+				d = fmt.Sprintf("cut=%d", lo+rng.Intn(len(z)-lo))
+			}
 		case 1:
 			if rng.Intn(2) == 0 {
 				d = fmt.Sprintf("flip=%d", lo*8+rng.Intn((len(z)-lo-12)*8))
@@ -498,7 +515,9 @@ func c17GlueGen(rng *rand.Rand, tier string) []string {
 			}
 		}
 	} else {
-		lines = append(lines, build("guess", "1", "args", 3, 1, damaged(1, 3, codecs[rng.Intn(4)], "fasta")))
+		for i, codec := range codecs {
+			lines = append(lines, build("guess", []string{"1", "n"}[rng.Intn(2)], layouts[rng.Intn(3)], 3, i%3, damaged(i%3, 3, codec, "fasta")))
+		}
 	}
 	// a forced format: the readers ReadFastaFromFile / ReadFastqFromFile have no peek, every fault is met in mid-stream
 	nf := 4
